@@ -4,7 +4,7 @@
 # seeded/<name>/, then runs our check(s) against /repo with the change applied and restores /repo.
 set -u
 ID=$1; NAME=$2; shift 2
-WT=/tmp/mut/$ID
+WT=${MUTROOT:-/tmp/mut}/$ID
 OUT=/verif/seeded/$NAME
 mkdir -p $OUT
 cd $WT || exit 2
@@ -15,7 +15,7 @@ T=$(/venv/bin/python -m pytest -q -p no:cacheprovider --timeout=900 dds_tests 2>
 echo "== demo with the change"; /venv/bin/python OUT/demo.py > $OUT/demo_with.log 2>&1; DW=$?; echo "exit $DW"
 git apply -R $OUT/patch.diff; echo "== demo without the change"; /venv/bin/python OUT/demo.py > $OUT/demo_without.log 2>&1; DWO=$?; echo "exit $DWO"; git apply $OUT/patch.diff
 cd /verif
-git -C /tmp/mutrepo checkout -q -- . ; git -C /tmp/mutrepo apply $OUT/patch.diff || { echo "PATCH DOES NOT APPLY"; exit 2; }
+git -C /tmp/mutrepo checkout -q -- . ; git -C /tmp/mutrepo checkout -q --detach $(git -C /repo rev-parse HEAD) ; git -C /tmp/mutrepo apply $OUT/patch.diff || { echo "PATCH DOES NOT APPLY"; exit 2; }
 RES=""
 for C in $ID "$@"; do
   echo "== ./check $C with the change applied to /repo"
